@@ -1,3 +1,4 @@
+import Eliot.Generated.GenWrapper
 /-! # `Eliot.Conc.Gen` — generators, contexts and `eliot_friendly_generator_function` (C15)
 
 Executable, Mathlib-free.  Three layers:
@@ -7,8 +8,9 @@ Executable, Mathlib-free.  Three layers:
   state type, used for the inner (user) generator and for the wrapper generator alike.
 * **The wrapper** of `/repo/eliot/_generators.py` (`wrapInput`, `wrapAfterGo`, `wrapBodyA`,
   `wrapBodyW`): line-by-line transliteration of the `while True` loop.  The Bool `keepsReturn`
-  is the single switch between the pinned tree (`except StopIteration: break`, the wrapper
-  returns `None`) and the repaired one (`except StopIteration as e: return e.value`).
+  distinguishes the two shapes of the `except StopIteration` handler: `break` (the wrapper returns
+  `None`; the tree as originally pinned) and `return e.value` (repaired); `Gen.keepsReturn` follows
+  the shape extracted from the current source.
 * **World model**: a table of generators whose bodies are small instruction lists, contexts
   `CtxId ↦ Option ActionId` with ContextVar token semantics, a driver script.  Nested generators:
   body `i` may resume generators `j > i`.
@@ -103,9 +105,12 @@ def wrapAfterGo (keepsReturn : Bool) : Out → Out
   | .raised e => .raised e
   | .yielded v => .yielded v
 
-/-- THE ONE-LINE SWITCH: does the wrapper of the tree under verification pass the generator's
-return value on?  Pinned tree: no. -/
-def keepsReturn : Bool := false
+/-- Does the wrapper of the tree under verification pass the generator's return value on?  Follows the
+source: the skeleton extractor (harness/extractors/e15_generator_wrapper.py) reports the body of the
+`except StopIteration` handler — `return e.value` (`.returnValue`) or `break` (`.break_`, the wrapper
+then returns `None`).  Both shapes are modelled; `.unknown` is treated like `break` and additionally
+fails the generated-skeleton obligation in `Properties/C15.lean`. -/
+def keepsReturn : Bool := Eliot.Generated.genWrapper.stop == .returnValue
 
 /-! ### Context-free (pure I/O) instance, for the transparency theorems -/
 
